@@ -167,7 +167,7 @@ def gen_cases(tier: str, rng: random.Random):
                                   'psel': valid_p, 'rsel': {'sts': s, 'mts': m}, 'level': level})
     exhaustive = len(cases)
     # product of both sides, sampled
-    n_prod = 4000 if tier == 'quick' else 60000
+    n_prod = 4000 if tier == 'quick' else 300000
     for _ in range(n_prod):
         prov, req, inj = rng.choice(shapes)
         cases.append({'provides': prov, 'requires': req, 'injected': inj,
@@ -175,7 +175,7 @@ def gen_cases(tier: str, rng: random.Random):
                       'rsel': {'sts': rng.choice(rsels), 'mts': rng.choice(rsels)},
                       'level': 'build', 'origin': rng.choice(['create', 'import'])})
     # beyond the small scope: 4-6 names per side
-    n_big = 1000 if tier == 'quick' else 20000
+    n_big = 1000 if tier == 'quick' else 100000
     for _ in range(n_big):
         k, m = rng.randint(0, 6), rng.randint(0, 6)
         prov = [f'p{i}' for i in range(k)]
